@@ -15,6 +15,7 @@ import StepModel.GenCxxDeriveFull
 import StepModel.GenCxxRedefFull
 import StepModel.GenCxxHeadKey
 import StepModel.GenCxxReadBack
+import StepModel.GenCxxRedefLine
 /-!
 # C02 — generated dictionary and classes mirror the EXPRESS schema
 
@@ -768,6 +769,28 @@ theorem C02_flags_redef_sound_full (s : Schema) (n : String) (l : List (SA × Bo
     obtain ⟨h1, _, h3⟩ := ho
     exact flags_redef_sound_full s n (fuelOf s) id a (by simp [saAt, hobj, h1]) (by simp [rAt, hobj, h3, hr])
 
+/-- **The order-dependent `_redefAttr` rule, the positive half**: an explicit redeclaration `SELF\sup.x` in an entity `m` on the
+    PRINCIPAL line of the instance's entity `n` (`n` itself, its first supertype, that one's first supertype … `k` steps up: the C++
+    base-class chain, whose constructors search the instance's own attribute list) always takes effect — the attribute it means
+    (registered as `x`, owned by the entity that declares `sup`'s `x`), wherever on `m`'s list it came from (principal line or a
+    part), is on the list of the instance of `n`, same descriptor, and wired.  For every schema with distinct entity names and
+    distinct attribute names per entity, any supertype graph.  Together with `C02_flags_redef_sound_full` (a wiring is always meant
+    by a redeclaration in the ancestry) and `C02_flags_part_frame` (a part constructor changes no flag of an attribute that was
+    there) this is the rule: redeclarations on the principal line wire the instance's attribute; a redeclaration in another line
+    (a part) searches the part's own list, so it reaches the instance's attribute only when the part created it
+    (`C02_flags_redef_second_supertype_witness`: `(c, b)` not wired, `(b, c)` wired). -/
+theorem C02_flags_redef_principal_line {s : Schema} (hn : (s.entities.map (·.name)).Nodup) (hk : AttrKeysDistinct s)
+    (f k : Nat) (n m : String) (hpl : principalAnc s k n = some m) (e : Entity) (hE : s.findE m = some e)
+    (a : Attr) (ha : a ∈ e.attrs) (hka : a.kind = .explicit) (hr : a.redecl.isSome = true) (o : String)
+    (ho : redefOwner s a = some o) (hom : o ≠ e.name)
+    (j : Nat) (hj : j ∈ (ctorNF s (f + 1) m {}).head) (sa : SA) (hs : saAt (ctorNF s (f + 1) m {}) j = some sa)
+    (hnm : sa.name = a.name) (hso : sa.owner = o) :
+    j ∈ (ctorNF s (f + 1 + k) n {}).head ∧ saAt (ctorNF s (f + 1 + k) n {}) j = some sa ∧
+      rAt (ctorNF s (f + 1 + k) n {}) j = true := by
+  have hw := ctorNF_top_wires s f m e hE a ha hka hr o ho hom (C02_head_keys_distinct hn hk (f + 1) m) j hj sa hs hnm hso
+  have kk := principal_rkeep s f k n m hpl
+  exact ⟨kk.2.2.2 j hj, by rw [kk.2.1 j (saAt_lt hs)]; exact hs, kk.2.2.1 j hw⟩
+
 /-- What remains order dependent is `_redefAttr`: `b` redeclares `SELF\a.x : INTEGER` explicitly.  In an instance of `u SUBTYPE OF (c, b)`
     the attribute `a.x` is not wired to the redefining attribute (the part constructor of `b` wires its own copy of `a.x`, which
     the head rejected as a duplicate), for `u SUBTYPE OF (b, c)` it is.  The implementation agrees with the model on both
@@ -1109,6 +1132,13 @@ example : WF exDiamond exRank := by
     rcases hm with rfl | rfl | rfl | rfl <;> decide
 
 example : (exDiamond.entities.map (·.name)).Nodup := by decide
+
+/-- the rule on the diamond: `c` (second supertype of `d`) redeclares `a.y` explicitly — as the instance's own class line (`c`
+    instantiated, or `e2 SUBTYPE OF (c)`) it wires `a.y`; `principalAnc` finds `c` one step up from `e2` -/
+example : principalAnc exDiamond 0 "c" = some "c" ∧ redefOwner exDiamond { name := "y", redecl := some "a", type := .base .real } = some "a" ∧
+    instanceFlags exDiamond "c" = some [(⟨"a", "x", .E⟩, false, false), (⟨"a", "y", .E⟩, false, true), (⟨"c", "a.y", .R⟩, false, false),
+                                         (⟨"c", "c1", .E⟩, false, false)] := by decide
+
 
 /-- the hypotheses of `C02_flags_derive_full` / `C02_derived_calls_closed_form` hold on the diamond, and the closed form says what
     the instance shows: `a.x` (derived by `b`) is named, `a.y` (explicitly redeclared by `c`) is not -/
